@@ -71,7 +71,7 @@ def _tup(x):
 
 def norm_kwargs(kw):
     kw = copy.deepcopy(kw)
-    for key in ("elements_to_ignore",):
+    for key in ("elements_to_ignore", "trusted_edges_for_safety"):
         if key in kw:
             kw[key] = [tuple(e) if isinstance(e, (list, tuple)) else e for e in kw[key]]
     for key in ("subpath_constraints", "subset_constraints"):
